@@ -30,3 +30,32 @@ package registry
 //verif:call[mkdir-confined] os.MkdirAll requires confined(destDir, cleanName, hdr) && arg0 == path_dir(path_join(destDir, cleanName)) && hdr.Typeflag == 48
 //verif:call[create-confined-excl] os.OpenFile requires confined(destDir, cleanName, hdr) && arg0 == path_join(destDir, cleanName) && arg1 == 193 && hdr.Typeflag == 48
 //verif:ensures[result-confined] err == nil ==> bin == path_join(destDir, candidate) && candidate != ""
+
+// C19: gate order of an install. The digest gate (CheckCorruption on the bytes
+// that were staged) precedes the trust gate (runVerificationGate), which precedes
+// finalizeArtifactInstall, the only function that moves anything into the install
+// directory; every earlier failure returns before it.
+//verif:func downloadVerifyAndInstall(ctx, opts, targetDir, target, verified, ra) (entry, err)
+//verif:call[digest-gate-on-staged-bytes] CheckCorruption requires succeeded("stageArtifact") && arg0 == result_of("stageArtifact", 0).Digest && arg1 == ra.artifact.SHA256
+//verif:call[trust-gate-after-digest-gate] runVerificationGate requires succeeded("CheckCorruption") && succeeded("stageArtifact") && arg3 == result_of("stageArtifact", 0)
+//verif:call[finalize-after-both-gates] finalizeArtifactInstall requires succeeded("CheckCorruption") && succeeded("runVerificationGate") && arg1.digest == result_of("stageArtifact", 0).Digest && arg1.verifyResult == result_of("runVerificationGate", 0) && arg1.stagingDir == result_of("os.MkdirTemp", 0) && arg1.targetDir == targetDir
+//verif:call[staging-is-private-temp] stageArtifact requires succeeded("os.MkdirTemp") && succeeded("os.Chmod") && arg4 == path_join(result_of("os.MkdirTemp", 0), "artifact.tar.gz")
+//verif:ensures[success-went-through-finalize] err == nil ==> succeeded("finalizeArtifactInstall")
+
+//verif:func runVerificationGate(ctx, opts, targetDir, dl, ra) (vr, err)
+//verif:ensures[signed-or-explicitly-unsigned] err == nil ==> vr.Signed || opts.AllowUnsigned && succeeded("unsignedInstallGate")
+//verif:call[unsigned-only-if-allowed] unsignedInstallGate requires opts.AllowUnsigned
+//verif:call[verifier-sees-checked-digest] fetchArtifactRef requires arg2 == dl.Digest
+
+//verif:func unsignedInstallGate(opts, targetDir, dl, ra) (vr, err)
+//verif:ensures[approved-and-audited] err == nil ==> succeeded("policy.Decide") && succeeded("policy.AppendUnsignedInstallEvent") && !vr.Signed
+//verif:call[audit-only-after-approval] policy.AppendUnsignedInstallEvent requires succeeded("policy.Decide") && result_of("policy.(Decision).Allowed", 0)
+
+//verif:func finalizeArtifactInstall(ctx, o) (entry, err)
+//verif:call[install-rename-after-extract-and-validate] os.Rename requires succeeded("extractAndGuard") && arg0 == result_of("extractAndGuard", 0) && (o.target.validate != nil ==> succeeded("$field.validate")) && arg1 == path_join(o.targetDir, result_of("$field.finalName", 0))
+//verif:call[extract-into-staging] extractAndGuard requires arg0 == o.archivePath && arg1 == o.stagingDir
+//verif:ensures[single-rename] count("os.Rename") <= 1
+
+//verif:func installArtifact(ctx, opts, targetDir, target, verified, ra) (res, err)
+//verif:call[install-under-target-lock] downloadVerifyAndInstall requires succeeded("AcquireTargetLock") && count("flock.(*Flock).Unlock") == 0
+//verif:call[manifest-only-after-install] writeManifestEntry requires succeeded("downloadVerifyAndInstall")
